@@ -69,6 +69,56 @@ def run(eng, rep, tier):
                           "that empties the list raises IndexError instead of MisformedRegexError" % ev.site.text,
                           site=ev.site.to_json(), path=[str(c.site) for c in chain][-6:])
 
+    # redundant parentheses: the outer-parenthesis strip must be repeated until the text is no longer surrounded
+    rc = prog.classes[READER]
+    strippers = []
+    for name, f in rc.methods.items():
+        for sub in ast.walk(f.node):
+            if isinstance(sub, ast.Assign) and isinstance(sub.value, ast.Subscript) and isinstance(sub.value.slice, ast.Slice) \
+                    and ast.unparse(sub.value.slice) == "1:-1" and "_components" in ast.unparse(sub.value.value):
+                strippers.append(f)
+    def reaches_itself(f0):
+        seen, todo = set(), [f0.name]
+        first = True
+        while todo:
+            cur = todo.pop()
+            g = rc.methods.get(cur)
+            if g is None:
+                continue
+            for c in ast.walk(g.node):
+                if isinstance(c, ast.Call) and isinstance(c.func, ast.Attribute) and isinstance(c.func.value, ast.Name) \
+                        and c.func.value.id == "self":
+                    if c.func.attr == f0.name:
+                        return True
+                    if c.func.attr not in seen:
+                        seen.add(c.func.attr)
+                        todo.append(c.func.attr)
+        return False
+    def in_loop(f0):
+        return any(isinstance(l, ast.While) and any(isinstance(x, ast.Assign) and "1:-1" in ast.unparse(x) for x in ast.walk(l))
+                   for l in ast.walk(f0.node))
+    for f in strippers:
+        ob.decide("R1", "C05.1", f, "paren-strip-repeats", reaches_itself(f) or in_loop(f),
+                  "outer parentheses are stripped repeatedly (recursion / loop) until the text is no longer surrounded",
+                  "one layer of redundant outer parentheses is stripped at most: `((a b|c))` keeps a layer and is parsed "
+                  "with the wrong precedence", None, site=site_of(prog, f, f.node))
+    if not strippers:
+        rep.error("R1", "C05.1", READER, "paren-strip-repeats", "the outer-parenthesis strip `[1:-1]` was not found")
+    # the empty regex denotes the empty language: no Thompson case may add an edge for an Empty leaf
+    rx = prog.classes[REGEX]
+    for name, f in sorted(rx.methods.items()):
+        if not name.startswith("_process_to_enfa"):
+            continue
+        sfn = interp.run_entry(f, REGEX)
+        for ev in sfn.events:
+            if ev.kind == "call" and ev.callee.rsplit(".", 1)[-1] in ("add_transition", "_add_epsilon_transition_in_enfa_between"):
+                hit = [fct for fct in ev.facts if "Empty" in fct[0] and "isinstance" in fct[0] and fct[1]]
+                if hit:
+                    rep.violation("R1", "C05.5", f.qname, "empty-leaf-adds-edge",
+                                  "an edge is added on the branch where the leaf is `Empty` (%s): the empty regex then "
+                                  "accepts the empty word inside a larger expression" % hit[0][0][:80], site=ev.site.to_json())
+    rep.holds("R1", "C05.5", REGEX + "._process_to_enfa_when_no_son", "empty-leaf-adds-no-edge:checked",
+              "no Thompson case adds an edge under an `isinstance(.., Empty)` test", nontrivial=False)
     # -------------------------------------------------------------- C05.2 exhaustiveness
     tables = {n: prog.const(RO, n) for n in ("CONCATENATION_SYMBOLS", "UNION_SYMBOLS", "KLEENE_STAR_SYMBOLS",
                                              "EPSILON_SYMBOLS", "PARENTHESIS", "SPECIAL_SYMBOLS")}
